@@ -10,7 +10,7 @@ Import ListNotations.
    indices, explicitly stored zeros; homogeneous metadata; type; id; group metadata) is written
    without error, and reading the file back, from the sample copy or from the observation copy,
    succeeds and yields the same ids in order, the same matrix, the same metadata per id and
-   category, type, table id (absent -> the placeholder), generated-by, creation date and
+   category, type, table id (opt_text: absent or empty -> the placeholder), generated-by, creation date and
    group-metadata payloads. *)
 Theorem hdf5_roundtrip : forall st genby date ax,
   wf_state st -> meta_ok st -> text genby -> text date ->
@@ -20,7 +20,7 @@ Theorem hdf5_roundtrip : forall st genby date ax,
     /\ l_mat ld = st_mat st
     /\ md_agree (l_omd ld) (md_norm (st_omd st)) /\ md_agree (l_smd ld) (md_norm (st_smd st))
     /\ l_type ld = st_type st
-    /\ l_id ld = match st_id st with Some s => s | None => s_no_table_id end
+    /\ l_id ld = opt_text (st_id st) s_no_table_id
     /\ l_genby ld = genby /\ l_date ld = date
     /\ l_ogmd ld = map (fun e => (fst e, snd (snd e))) (st_ogmd st)
     /\ l_sgmd ld = map (fun e => (fst e, snd (snd e))) (st_sgmd st).
@@ -52,11 +52,31 @@ Print Assumptions escape_roundtrip.
 (* ... and does NOT read back for some names with at-signs: the witness is the name @@SLASH@/
    which is written as a dataset name without a slash and read back as /@SLASH@@ .
    This is the one place where the code leaves the property's literal domain
-   ("category names including '/'"); replayed on the implementation by corpus/C01. *)
+   ("category names including '/'"); replayed on the implementation by corpus/C01 (escape cases). *)
 Theorem slash_escape_refuted :
   exists k, text k /\ ~ In 47%Z (sanitize k) /\ unsanitize (sanitize k) <> k.
 Proof. exact Utf8Proofs.slash_escape_refuted. Qed.
 Print Assumptions slash_escape_refuted.
+
+(* ... end to end (known finding F38): a coherent 1 x 1 table whose observation category is named
+   @@SLASH@/  is written and read without error and the category comes back as  /@SLASH@@ ;
+   every hypothesis of hdf5_roundtrip except cat_ok holds for it.  Witness: corpus/C01/f38_slash_escape.json *)
+Theorem hdf5_roundtrip_escape_refuted :
+  wf_state f38_st
+  /\ match bind (to_hdf5 f38_st [] []) (fun f => from_hdf5 f Samp) with
+     | ROk ld => l_omd ld = Some [[([47; 64; 83; 76; 65; 83; 72; 64; 64]%Z, MStr [118]%Z)]]
+                 /\ ~ md_agree (l_omd ld) (md_norm (st_omd f38_st))
+     | RErr _ => False
+     end.
+Proof. exact Hdf5Proofs.hdf5_roundtrip_escape_refuted. Qed.
+Print Assumptions hdf5_roundtrip_escape_refuted.
+
+(* the hypotheses are decidable: the boolean the correspondence run evaluates on every case is sound,
+   so every case it flags is an instance of hdf5_roundtrip *)
+Theorem in_domainb_sound : forall st genby date, in_domainb st genby date = true ->
+  wf_state st /\ meta_ok st /\ text genby /\ text date.
+Proof. exact Hdf5Proofs.in_domainb_sound. Qed.
+Print Assumptions in_domainb_sound.
 
 (* [more] what the reader returns is determined: it is exactly `reloaded st genby date`,
    whichever matrix copy is read *)
